@@ -21,7 +21,7 @@ ASSUMPTIONS = c02.ASSUMPTIONS[:3] + [
     'handler patches use paths disjoint from what the environment edits, so the reference model is last-writer-wins per path',
     'transformation functions are appended to patch.fns by the handlers (the same mechanism the framework uses for finalizers)',
 ]
-BUDGET = {'quick': 40, 'thorough': 1000}
+BUDGET = {'quick': 120, 'thorough': 1000}
 FINDING_C = 'C08-C-merge-patch-lands-on-same-named-successor'
 
 
